@@ -256,10 +256,11 @@ def opInverse (e : Entry) : RM Res := do
       let coupled6 := hasPara k
       if !coupled6 then
         preds := preds ++ [("C06.j6", sols.all (fun s => s.j6.toBits == j6.toBits || (s.j6.isNaN && j6.isNaN)), "J6 differs from the argument")]
-    if e == .invc5 && !hasPara k && !prev.j1.isNaN && prev.j6.isFinite then
+    let cont5 := e == .invc5 || (e == .invc && k.core.p.dof == 5)
+    if cont5 && !hasPara k && !prev.j1.isNaN && prev.j6.isFinite then
       preds := preds ++ [("C06.j6", sols.all (fun s => s.j6.toBits == prev.j6.toBits), s!"J6 differs from previous J6: {sols.map (·.j6)}")]
     -- the CONSTRAINT_CENTERED sentinel [NaN,0,0,0,0,0]: the caller's J6 is 0, whatever the centre of the J6 limits
-    if e == .invc5 && !hasPara k && prev.j1.isNaN && prev.j6 == 0.0 &&
+    if cont5 && !hasPara k && prev.j1.isNaN && prev.j6 == 0.0 &&
         (match k.constraints with | some c => c.centers.j6.abs < 3.0 | none => true) then
       preds := preds ++ [("C06.j6", sols.all (fun s => s.j6 == 0.0), s!"CONSTRAINT_CENTERED: J6 differs from the caller's 0: {sols.map (·.j6)}")]
     -- the position-only solvers answer every pose whose wrist centre the arm reaches (oracle: the planar two-link
@@ -310,6 +311,13 @@ def opInverse (e : Entry) : RM Res := do
           if p.dof != 5 then
             let found := sols.any (fun s => equivJ6 1e-6 s q)
             preds := preds ++ [("C02.complete", found, s!"originating joints {showJ6 q} not among {sols.length} answers")]
+            -- away from the singularities the continuation adds nothing to the answer set: no vector twice
+            if e == .invc then
+              let rec dup : List (J6 Float) → Option (J6 Float)
+                | [] => none
+                | x :: rest => if rest.any (fun y => closeJ6 1e-9 x y) then some x else dup rest
+              let d := dup sols
+              preds := preds ++ [("C02.distinct_continuing", d.isNone, s!"answer {d.map showJ6} is returned twice by inverse_continuing ({sols.length} answers)")]
         else
           let found := sols.any (fun s => equivJ6 1e-6 { s with j6 := q.j6 } q)
           preds := preds ++ [("C06.origin", found, s!"originating J1..J5 {showJ6 q} not among {sols.length} answers")]
@@ -325,7 +333,10 @@ def opInverse (e : Entry) : RM Res := do
         | some c => c.sortingWeight == 0.0 && robustCompliant c prev
         | none => true
       let inRange2 := prev.toList.all (fun x => x.abs ≤ 2.0 * piF)
-      if realises && byPrevSort && inRange2 && m3 > 0.2 && m1 > 0.2 then
+      -- at the singularity J4 and J6 of the previous vector may be up to two whole turns beyond that
+      let inRange4 := [prev.j1, prev.j2, prev.j3, prev.j5].all (fun x => x.abs ≤ 2.0 * piF) &&
+        [prev.j4, prev.j6].all (fun x => x.abs ≤ 5.0 * piF)
+      if realises && byPrevSort && (inRange2 || (inRange4 && m5 < 1e-12)) && m3 > 0.2 && m1 > 0.2 then
         if m5 > 0.2 then
           let first := sols.head?
           preds := preds ++ [("C04.prev_first", match first with
